@@ -24,7 +24,8 @@ Print Assumptions gate_qasm_roundtrip.
 
 (* Whole circuits (all n, all gate lists, all register layouts).  PARTIAL with respect to the property
    text: excluded are (1) collapsed measurements (qe_nocollapse), (2) classes whose label fails the
-   table check, i.e. iSWAP on the current tree (inside gate_check), (3) two measurements with the same
+   table check -- none on the current tree: name_table_ok holds in full since the iSWAP repair (inside
+   gate_check), (3) two measurements with the same
    register name (qe_names), (4) measurements of no qubits (qe_mq) -- each excluded case is refuted
    below.  Conclusion: the re-imported circuit has the same n, the non-measurement gates are
    gate_equiv to the original ones in the same order, followed by one measurement per register with
@@ -62,10 +63,18 @@ Theorem qasm_roundtrip_refuted_implicit_collapse : exists c s c',
   /\ length (filter is_M (cqueue c)) = 1%nat /\ length (filter is_M (cqueue c')) = 0%nat.
 Proof. exact ex_implicit_collapse_dropped. Qed.
 
-Theorem qasm_roundtrip_refuted_iswap : exists c s,
+(* repaired on the current tree (formerly refuted): the iSWAP label round-trips; the pre-repair behaviour is
+   kept as a labelled historical lemma *)
+Example qasm_iswap_roundtrips : exists c s c',
   ex_iswap_circuit = OK c /\ write ex_rows c = OK s
-  /\ read ex_rows ex_bases ex_specials ex_rotation s = Err EValueError.
-Proof. exact ex_iswap_rejected. Qed.
+  /\ read ex_rows ex_bases ex_specials ex_rotation s = OK c'
+  /\ map gcls (cqueue c') = ["iSWAP"] /\ map gtargets (cqueue c') = map gtargets (cqueue c).
+Proof. exact ex_iswap_roundtrips. Qed.
+
+Theorem historical_iswap_rejected_before_repair : exists c s,
+  ex_iswap_circuit = OK c /\ write ex_rows c = OK s
+  /\ read ex_rows ex_bases old_specials ex_rotation s = Err EValueError.
+Proof. exact historical_iswap_rejected_without_special_case. Qed.
 
 Theorem qasm_roundtrip_refuted_duplicate_register : exists c s c',
   ex_dupreg_circuit = OK c /\ write ex_rows c = OK s
@@ -106,11 +115,17 @@ Example raw_roundtrip_controlled_by_nonvacuous :
   /\ from_dict ex_rows ex_bases (raw ex_required ex_rx) = OK ex_rx /\ raw_rt_ok (OK ex_rx) ex_rx.
 Proof. exact ex_controlled_hyp. Qed.
 
-Theorem raw_roundtrip_refuted_Align : exists g g',
-  construct ex_bases ex_Align [VA (AInt 1); VA (AInt 3)] [] = OK g
-  /\ from_dict ex_rows ex_bases (raw ex_required g) = OK g'
-  /\ gparams g = [VA (AInt 3)] /\ gparams g' = [VA (AInt 0)].
-Proof. exact ex_align_delay_lost. Qed.
+(* repaired on the current tree (formerly refuted): Align keeps `delay` *)
+Example raw_roundtrip_Align_example :
+  construct ex_bases ex_Align [VA (AInt 1); VA (AInt 3)] [] = OK ex_align
+  /\ raw_rt_ok (from_dict ex_rows ex_bases (raw ex_required ex_align)) ex_align
+  /\ gparams ex_align = [VA (AInt 3)].
+Proof. exact ex_align_roundtrips. Qed.
+
+Theorem historical_Align_delay_lost_before_repair : exists g',
+  from_dict ex_rows ex_bases (raw old_required ex_align) = OK g'
+  /\ gparams ex_align = [VA (AInt 3)] /\ gparams g' = [VA (AInt 0)].
+Proof. exact historical_align_delay_lost_without_delay_key. Qed.
 
 Theorem circuit_dict_roundtrip_refuted : exists c c',
   ex_basis_circuit = OK c
